@@ -11,7 +11,15 @@ use crate::json::JSON;
 use crate::splines::{PPSpline, PPSplineDual, PPSplineDual2, PPSplineF64};
 use chrono::NaiveDateTime;
 
+/// The Python-facing methods of `Cal` / `UnionCal` / `NamedCal`, `Convention`, `Modifier` (`rust/calendars/calendar_py.rs`).
+pub use crate::calendars::calendar_py::verif_hooks as calendar_py;
 pub use crate::curves::curve_py::verif_hooks::CurveH;
+/// The Python-facing operator table of `Dual` / `Dual2` (`rust/dual/dual_py.rs`).
+pub use crate::dual::dual_py::verif_hooks as dual_py;
+/// The Python-facing attributes and methods of `Ccy` / `FXRate` / `FXRates` (`rust/fx/rates_py.rs`).
+pub use crate::fx::rates_py::verif_hooks as rates_py;
+/// The Python-facing methods of `PPSplineF64` / `PPSplineDual` / `PPSplineDual2` (`rust/splines/spline_py.rs`).
+pub use crate::splines::spline_py::verif_hooks as spline_py;
 
 /// `index_left` instantiated for `f64` lists.
 pub fn index_left_f64(list: &[f64], value: &f64) -> usize {
@@ -148,7 +156,10 @@ pub fn named_cal_union(c: &crate::calendars::NamedCal) -> &crate::calendars::Uni
 }
 pub fn union_cal_parts(
     c: &crate::calendars::UnionCal,
-) -> (&Vec<crate::calendars::Cal>, &Option<Vec<crate::calendars::Cal>>) {
+) -> (
+    &Vec<crate::calendars::Cal>,
+    &Option<Vec<crate::calendars::Cal>>,
+) {
     (&c.calendars, &c.settlement_calendars)
 }
 
@@ -209,7 +220,11 @@ pub mod trace {
             if v.get("key").is_none() {
                 v["key"] = json!(format!("repotest/{}", seq));
             }
-            if let Ok(mut f) = std::fs::OpenOptions::new().create(true).append(true).open(p) {
+            if let Ok(mut f) = std::fs::OpenOptions::new()
+                .create(true)
+                .append(true)
+                .open(p)
+            {
                 let _ = writeln!(f, "{}", v);
             }
         }
@@ -254,8 +269,18 @@ pub mod trace {
     fn num_json(n: &Number) -> (f64, &'static str, Vec<String>, Vec<f64>) {
         match n {
             Number::F64(f) => (*f, "F", vec![], vec![]),
-            Number::Dual(d) => (d.real(), "D1", d.vars().iter().cloned().collect(), d.dual().to_vec()),
-            Number::Dual2(d) => (d.real(), "D2", d.vars().iter().cloned().collect(), d.dual().to_vec()),
+            Number::Dual(d) => (
+                d.real(),
+                "D1",
+                d.vars().iter().cloned().collect(),
+                d.dual().to_vec(),
+            ),
+            Number::Dual2(d) => (
+                d.real(),
+                "D2",
+                d.vars().iter().cloned().collect(),
+                d.dual().to_vec(),
+            ),
         }
     }
     /// how each quote depends on variables: a float quote is tagged fx_<pair> when derivatives are switched on
@@ -278,7 +303,11 @@ pub mod trace {
         let mut names: Vec<String> = vec![];
         for r in f.fx_rates.iter() {
             let (_, kind, vars, _) = num_json(&r.rate);
-            let vs = if kind == "F" { vec![format!("fx_{}{}", r.pair.0.name, r.pair.1.name)] } else { vars };
+            let vs = if kind == "F" {
+                vec![format!("fx_{}{}", r.pair.0.name, r.pair.1.name)]
+            } else {
+                vars
+            };
             for v in vs {
                 if !names.contains(&v) {
                     names.push(v);
@@ -287,7 +316,8 @@ pub mod trace {
         }
         let order = super::fxrates_ad(f);
         let cc: Vec<Ccy> = f.currencies.iter().cloned().collect();
-        let (mut re, mut g, mut kinds, mut present, mut hp, mut h) = (vec![], vec![], vec![], vec![], vec![], vec![]);
+        let (mut re, mut g, mut kinds, mut present, mut hp, mut h) =
+            (vec![], vec![], vec![], vec![], vec![], vec![]);
         for i in 0..n {
             for j in 0..n {
                 let x = f.rate(&cc[i], &cc[j]).unwrap();
@@ -305,7 +335,13 @@ pub mod trace {
                     if n <= 4 {
                         let m = d.gradient2(names.clone());
                         hp.push(i * n + j + 1);
-                        h.push(Value::Array((0..names.len()).map(|a| Value::Array((0..names.len()).map(|b| fj(m[[a, b]])).collect())).collect()));
+                        h.push(Value::Array(
+                            (0..names.len())
+                                .map(|a| {
+                                    Value::Array((0..names.len()).map(|b| fj(m[[a, b]])).collect())
+                                })
+                                .collect(),
+                        ));
                     }
                 }
             }
